@@ -33,16 +33,19 @@ def main():
         coll("any", ["recs"], "default", "r", "", coll("any", ["r", "tags"], "default", "t", "", match(["t"], "==", "b"))),
         match(["X"], "==", "1"),                                                          # filters over the containers
         {"t": "and", "l": match(["X"], "==", "1"), "r": match(["Y"], "!=", "a"), "val": "", "hv": False, "mode": "", "n1": "", "n2": ""},
+        # a broken pattern / an erroring quantifier body that only some documents reach
+        {"t": "or", "l": match(["top"], "==", "5"), "r": match(["s"], "matches", "("), "val": "", "hv": False, "mode": "", "n1": "", "n2": ""},
+        {"t": "or", "l": match(["top"], "==", "5"), "r": coll("any", ["m3e"], "value", "", "top", match(["top", "V"], "==", "2")), "val": "", "hv": False, "mode": "", "n1": "", "n2": ""},
     ]
     evs = [{"e": i + 1, "c": 1, "f": False} for i in range(7)] + [{"e": 1, "c": 2, "f": False}, {"e": 3, "c": 2, "f": False},
-           {"e": 8, "c": 1, "f": True}, {"e": 9, "c": 1, "f": True}]
+           {"e": 8, "c": 1, "f": True}, {"e": 9, "c": 1, "f": True}, {"e": 10, "c": 1, "f": False}, {"e": 11, "c": 1, "f": False}]
     # documents: the maps / absent / records documents for evaluators, a few containers for filters
     pick = [i for i, n in enumerate(names) if n in ("maps", "maps-b", "absent", "absent-b", "records", "items", "ifaces", "maps-err-mid", "maps-err-last", "smap", "map-err", "ints", "nil")]
     docs_sel = [docs[i] for i in pick]
     # the harness rebuilds documents by index into the concatenated worlds: keep the full list, restrict calls in the model
     if not quick:
         # length-3 histories over a smaller alphabet of calls (8 objects x 7 documents = 56 call types, 178 k histories)
-        evs = [evs[i] for i in (0, 1, 2, 4, 6, 7, 9, 10)]
+        evs = [evs[i] for i in (0, 1, 2, 4, 7, 9, 11, 12)]
         pick = [i for i in pick if names[i] in ("maps", "maps-b", "absent", "absent-b", "items", "maps-err-mid", "smap")]
     world = vlib.api_world("hist", worlds, docs, data["cfgs"], [0, 2], exprs, 2 if quick else 3, evs=evs)
     world["docsel"] = [i + 1 for i in pick]
